@@ -30,6 +30,8 @@ def runHistory (rows cols n : Nat) (pd0 : List Nat) (ops : List Json) : Except S
       s := step one all n s .whole
     else if kind == "replace" then
       s := step one all n s (.replace (← getNatList o "pd"))
+    else if kind == "scribble" then
+      s := step one all n s (.scribble (← getNat o "i"))
     else throw "unknown op"
   pure out
 
